@@ -30,8 +30,17 @@ THEOREMS = [
     'Pyiga.Props.C09.kron_symmetric', 'Pyiga.Props.C09.kron_total',
     'Pyiga.Props.C09.load_vector_spec', 'Pyiga.Props.C09.integrate_spec', 'Pyiga.Props.C09.integrate_spec_2d',
     'Pyiga.Props.C09.det2_eq_matrix_det', 'Pyiga.Props.C09.det3_eq_matrix_det',
+    # n-D inner_products / integrate (incl. |det J|), tensor / boundary quadrature
+    'Pyiga.Props.C09.tensor_weights_outer', 'Pyiga.Props.C09.tensor_weights_sum', 'Pyiga.Props.C09.apply_tprod_T_spec',
+    'Pyiga.Props.C09.inner_products_spec', 'Pyiga.Props.C09.absVal_eq_abs', 'Pyiga.Props.C09.inner_products_geo_spec',
+    'Pyiga.Props.C09.integrate_geo_spec', 'Pyiga.Props.C09.integrate_geo_nonneg',
+    'Pyiga.Props.C09.tensor_quadrature_axes', 'Pyiga.Props.C09.tensor_quadrature_measure',
+    'Pyiga.Props.C09.boundary_quadrature_axes', 'Pyiga.Props.C09.boundary_quadrature_measure',
+    # generic path with identity geometry = Kronecker path (Props/C09Generic.lean; imports Props.C01 of b-assembler)
+    'Pyiga.Props.C09.generic_identity_mass_2d', 'Pyiga.Props.C09.generic_identity_stiffness_2d', 'Pyiga.Props.C09.generic_identity_mass_3d',
+    'Pyiga.Props.C09.generic_entry_mass_2d', 'Pyiga.Props.C09.generic_entry_stiffness_2d',
 ]
-MODULES = ['Pyiga.Model.Galerkin', 'Pyiga.Proofs.Galerkin', 'Pyiga.Proofs.GalerkinAsm', 'Pyiga.Proofs.GalerkinKron', 'Pyiga.Proofs.GalerkinKron3', 'Pyiga.Props.C09']
+MODULES = ['Pyiga.Model.Galerkin', 'Pyiga.Proofs.Galerkin', 'Pyiga.Proofs.GalerkinAsm', 'Pyiga.Proofs.GalerkinKron', 'Pyiga.Proofs.GalerkinKron3', 'Pyiga.Proofs.GalerkinTprod', 'Pyiga.Proofs.GalerkinGeneric', 'Pyiga.Props.C09', 'Pyiga.Props.C09Generic']
 U = F(1, 2 ** 53)
 
 
@@ -318,11 +327,11 @@ def run(ctx):
     ok_gen, log = ctx.lake_build(['Pyiga.Gen.DetInv'])
     ctx.obligation('regenerated obligations Pyiga.Gen.DetInv (det = Leibniz expansion, Y*X = 1 = X*Y, copies agree) re-proved',
                    ok_gen, ' | '.join([l for l in log.split('\n') if l.startswith('error')][:4])[:550] if not ok_gen else '%d theorems' % len(gen_names))
-    ctx.require_lean(['Pyiga.Props.C09', 'drv_c09'])
+    ctx.require_lean(['Pyiga.Props.C09', 'Pyiga.Props.C09Generic', 'drv_c09'])
     if ok_gen:
-        ctx.audit(['Pyiga.Props.C09', 'Pyiga.Gen.DetInv'], THEOREMS + gen_names, MODULES + ['Pyiga.Gen.DetInvDefs', 'Pyiga.Gen.DetInv'])
+        ctx.audit(['Pyiga.Props.C09Generic', 'Pyiga.Gen.DetInv'], THEOREMS + gen_names, MODULES + ['Pyiga.Gen.DetInvDefs', 'Pyiga.Gen.DetInv'])
     else:
-        ctx.audit(['Pyiga.Props.C09'], THEOREMS, MODULES)
+        ctx.audit(['Pyiga.Props.C09Generic'], THEOREMS, MODULES)
     if ctx.tier == 'thorough':
         ctx.leanchecker(MODULES + (['Pyiga.Gen.DetInv'] if ok_gen else []))
 
@@ -674,18 +683,23 @@ def run(ctx):
                 r = r * (c[0] + c[1] * xx)
             return r
         fv = utils.grid_eval(f, grid)
-        det = None if geo is None else np.abs(assemble_tools.determinants(geo.grid_jacobian(grid)))
+        # SIGNED determinants of the geometry Jacobian: the model applies np.abs itself (innerProductsGeo / integrateGeo)
+        det = None if geo is None else np.asarray(assemble_tools.determinants(geo.grid_jacobian(grid)))
         Cs = [bspline.collocation(kv, g).toarray() for kv, g in zip(kvs, grid)]
         case = {'kvs': [(kv.kv.tolist(), kv.p) for kv in kvs], 'f_coeffs': cf, 'geo_coeffs': None if geo is None else geo.coeffs.tolist()}
-        rdet = None if det is None else det.ravel()
         nt = sum(len(g) for g in grid) + 8
-        add('inner %s %s %s %s' % (plist(Cs, fmat), plist(wts, fl), fl(fv.ravel()), fopt(rdet)),
+        if det is None:
+            op1, op2, dtok, datok = 'inner', 'integ', '0', '0'
+        else:
+            op1, op2, dtok, datok = 'innerg', 'integg', fl(det.ravel()), fl(np.abs(det.ravel()))
+            ctx.count('geometry cases with det J < 0' if det.ravel()[0] < 0 else 'geometry cases with det J > 0')
+        add('%s %s %s %s %s' % (op1, plist(Cs, fmat), plist(wts, fl), fl(fv.ravel()), dtok),
             lambda: ('vec', np.asarray(assemble.inner_products(kvs, f, geo=geo)).ravel()),
-            {'kind': 'vec', 'abs': 'inner %s %s %s %s' % (plist([np.abs(c) for c in Cs], fmat), plist(wts, fl), fl(np.abs(fv.ravel())), fopt(rdet)),
+            {'kind': 'vec', 'abs': '%s %s %s %s %s' % (op1, plist([np.abs(c) for c in Cs], fmat), plist(wts, fl), fl(np.abs(fv.ravel())), datok),
              'nterms': nt, 'what': 'inner_products %dD%s' % (dim, '' if geo is None else ' geo'), 'case': case})
-        add('integ %s %s %s' % (plist(wts, fl), fl(fv.ravel()), fopt(rdet)),
+        add('%s %s %s %s' % (op2, plist(wts, fl), fl(fv.ravel()), dtok),
             lambda: ('vec', np.asarray([assemble.integrate(kvs, f, geo=geo)])),
-            {'kind': 'vec', 'abs': 'integ %s %s %s' % (plist(wts, fl), fl(np.abs(fv.ravel())), fopt(rdet)),
+            {'kind': 'vec', 'abs': '%s %s %s %s' % (op2, plist(wts, fl), fl(np.abs(fv.ravel())), datok),
              'nterms': int(np.prod([len(g) for g in grid])) + 8, 'what': 'integrate %dD%s' % (dim, '' if geo is None else ' geo'), 'case': case})
         ctx.count('inner_products/integrate %dD%s' % (dim, '' if geo is None else ' geo'), 2)
 
@@ -1104,7 +1118,7 @@ def run(ctx):
                     ok = o and len(nodes) == len(q[0])
             elif kind == 'vec':
                 t = Toks(g); ta = Toks(ab)
-                if r.startswith('integ'):
+                if r.startswith(('integ ', 'integg ')):
                     vals = [t.rat()]; avals = [ta.rat()]
                 else:
                     vals = t.rats(); avals = ta.rats()
